@@ -22,7 +22,7 @@ def profile(st):
                         'p_sl_inside_ladder': st.choice([0.0, 0.5], 'psil'), 'p_refine_on_open': st.choice([0.0, 0.5, 1.0], 'proo'),
                         'p_modify': st.choice([0.05, 0.2, 0.5], 'pm'), 'p_withdraw': st.choice([0.0, 0.03, 0.1], 'pw'), 'p_modify_entry': st.choice([0.0, 0.05], 'pme'),
                         'sl_rows': st.choice([1, 2, 3], 'sl'), 'tp_rows': st.choice([1, 2, 3], 'tp'),
-                        'p_inplace': st.choice([0.0, 0.5], 'pinp'),
+                        'p_inplace': st.choice([0.0, 0.5], 'pinp'), 'repeat_exits': st.chance(0.25, 'rex'),
                         'p_keep_entry': st.choice([0.0, 0.3, 0.7], 'pk'), 'p_liquidate': st.choice([0.0, 0.02], 'pl'),
                         'entry_styles': st.choice([['market', 'limit', 'stop', 'ladder', 'mixed'], ['mixed', 'ladder']], 'es'),
                         'resize_mode': st.choice(['always', 'random', 'never'], 'rm')}}
@@ -45,6 +45,6 @@ CHECK = SessionCheck(
                  'wrong-side rows that jesse replaces by plain market orders are matched on quantity only'],
     real_components=COMMON_REAL, stub_components=COMMON_STUB,
     fault_kinds=['exit_modified', 'entry_modified', 'liquidate_called', 'near_band_row', 'wrong_side_row'],
-    probes=['declared_in_place', 'c10_rejected_exit_rows_judged', 'c10_open_time_exits_checked', 'declared_sl_inside_ladder', 'exits_refined_on_open', 'wrong_side_row', 'c10_entry_submissions', 'c10_exit_submissions', 'c10_exit_sets_checked', 'c10_rows_at_band_edge', 'c10_sce_yes', 'c10_sce_no',
+    probes=['identical_exit_redeclared_in_next_trade', 'declared_in_place', 'c10_rejected_exit_rows_judged', 'c10_open_time_exits_checked', 'declared_sl_inside_ladder', 'exits_refined_on_open', 'wrong_side_row', 'c10_entry_submissions', 'c10_exit_submissions', 'c10_exit_sets_checked', 'c10_rows_at_band_edge', 'c10_sce_yes', 'c10_sce_no',
             'c10_entry_market', 'c10_entry_limit', 'c10_entry_stop', 'c10_exit_market', 'c10_exit_limit', 'c10_exit_stop'],
 )
